@@ -341,10 +341,12 @@ CLAIMED["C28"] = dict(
         "(fmt.Sprintf(\"%04d.part\", k)) reads back as k for every k in 1..10000 (theory of strings, including the five-digit name of part 10000); the comparison "
         "completeMultipartUpload sorts the listed parts by is 'part number less than'; completeMultipartUpload sorts before it concatenates, appends every chunk of "
         "every part at the running offset, the running offset is the end of the chunk appended last and starts at 0 (loop invariants, guard at every append), and "
-        "hands exactly that list to the object's entry.",
+        "hands exactly that list to the object's entry. Streaming-signed PUT and part upload (guards on PutObjectHandler and PutObjectPartHandler): what goes to "
+        "the filer for a request with an aws-chunked body is read through the decoding reader, set up without error - or nothing is stored.",
    note="sort.SliceStable (library) is assumed to sort by the comparison it is given; the filer listing, mkFile and the upload directory are opaque; part numbers are "
-        "compared for names without a sign character. Not decided: single PUT, streaming-signed PUT, copy, range reads through S3 (C32 decides the volume server's "
-        "range answers), batch delete, the order of the chunks inside one part (taken as listed). One defect repaired (part 10000 was concatenated before part 1001). "
+        "compared for names without a sign character. Not decided: the aws-chunked decoder itself, copy, range reads through S3 (C32 decides the volume server's "
+        "range answers), batch delete, the order of the chunks inside one part (taken as listed). Two defects repaired (part 10000 was concatenated before part 1001; "
+        "a streaming-signed part was stored with its framing when no identities are configured). "
         + TRUST,
    design="DESIGN.md §4 C28")
 
